@@ -140,50 +140,90 @@ def nan_rule(prog, res, ents):
                 rejecters.add(f.id)
                 changed = True
     n_reads = 0
+    TRANSPARENT = ("is_nan", "is_infinite", "is_finite", "map_err", "branch", "from_residual", "insufficient_data", "map", "and_then", "ok",
+                   "from", "into", "ok_or", "ok_or_else")
+
+    def project(e):
+        """field k of (select c, (a0, a1), (b0, b1)) -> select c, ak, bk"""
+        if e[0] == "field" and isinstance(e[1], tuple) and e[2].isdigit():
+            base = e[1]
+            if base[0] == "select":
+                return ("select", base[1], project(("field", base[2], e[2])), project(("field", base[3], e[2])))
+            if base[0] == "agg" and base[1] == "tuple" and int(e[2]) < len(base[2]):
+                return base[2][int(e[2])]
+        return e
+
+    def has_float_use(e, tags, under_int=False):
+        if not isinstance(e, tuple) or not e:
+            return False
+        if e[0] == "field":
+            e = project(e)
+        if e[0] == "cast" and e[2] in INT_TYPES:
+            return False
+        if e[0] == "call" and isinstance(e[1], str) and e[1] in tags:
+            return True
+        return any(has_float_use(x, tags) for x in e[1:] if isinstance(x, tuple)) or any(
+            has_float_use(y, tags) for x in e[1:] if isinstance(x, tuple) and x and not isinstance(x[0], str) for y in x)
+
+    def analyse(g, mod):
+        """(reads, calls): reads = [(block, site, tags)] -- direct codec float reads, and calls of same-module helpers that only
+        pass a float read on to their return value (the check is then owed by the caller)"""
+        s = sym.Sym(prog, g)
+        calls = []
+        for b, site in g.calls():
+            nm = site.get("callee") or ""
+            try:
+                args = [s.at(b, "t").operand(a) for a in site["args"]]
+            except Exception:
+                args = []
+            calls.append((b, nm, args))
+        reads = []
+        for b, site in g.calls():
+            nm = site.get("callee") or ""
+            if nm.rsplit("::", 1)[-1].startswith(("read_f64", "read_f32")):
+                reads.append((b, site, frozenset(["%s@%s#%d" % (nm.rsplit("::", 1)[-1], g.item_name, b)])))
+            elif nm in passthrough:
+                reads.append((b, site, frozenset([nm]) | passthrough[nm]))
+        return s, calls, reads
+
+    def uses_of(calls, rb, tags):
+        return [(b, nm) for b, nm, args in calls if nm not in rejecters and nm.rsplit("::", 1)[-1] not in TRANSPARENT
+                and b != rb and any(has_float_use(a, tags) for a in args)]
+    # helpers that read a float and only hand it back (no use of their own): found bottom-up, two levels are plenty
+    passthrough = {}
+    for _round in range(2):
+        for ent in ents:
+            mod = ent.split("::")[0]
+            if mod not in sink_mods:
+                continue
+            for g in C.reach_from(prog, [ent]):
+                if g.id.split("::")[0] != mod or g.id in passthrough or g.id in ents:
+                    continue
+                rty = g.local_ty(0) or ""
+                if not ("f64" in rty or "f32" in rty):
+                    continue
+                s_, calls_, reads_ = analyse(g, mod)
+                if reads_ and all(not uses_of(calls_, rb, tags) for rb, _st, tags in reads_):
+                    tg = frozenset()
+                    for _rb, _st, tags in reads_:
+                        tg = tg | tags
+                    passthrough[g.id] = tg
+    seen_fns = set()
     for ent in ents:
         mod = ent.split("::")[0]
         if mod not in sink_mods:
             continue
         for g in C.reach_from(prog, [ent]):
-            if g.id.split("::")[0] != mod:
+            if g.id.split("::")[0] != mod or g.id in seen_fns:
                 continue
-            reads = [(b, site) for b, site in g.calls() if (site.get("callee") or "").rsplit("::", 1)[-1].startswith(("read_f64", "read_f32"))]
+            seen_fns.add(g.id)
+            s, calls, reads = analyse(g, mod)
             if not reads:
                 continue
-            s = sym.Sym(prog, g)
-
-            def project(e):
-                """field k of (select c, (a0, a1), (b0, b1)) -> select c, ak, bk"""
-                if e[0] == "field" and isinstance(e[1], tuple) and e[2].isdigit():
-                    base = e[1]
-                    if base[0] == "select":
-                        return ("select", base[1], project(("field", base[2], e[2])), project(("field", base[3], e[2])))
-                    if base[0] == "agg" and base[1] == "tuple" and int(e[2]) < len(base[2]):
-                        return base[2][int(e[2])]
-                return e
-
-            def has_float_use(e, tag, under_int=False):
-                if not isinstance(e, tuple) or not e:
-                    return False
-                if e[0] == "field":
-                    e = project(e)
-                if e[0] == "cast" and e[2] in INT_TYPES:
-                    return False
-                if e[0] == "call" and isinstance(e[1], str) and e[1] == tag:
-                    return True
-                return any(has_float_use(x, tag) for x in e[1:] if isinstance(x, tuple)) or any(
-                    has_float_use(y, tag) for x in e[1:] if isinstance(x, tuple) and x and not isinstance(x[0], str) for y in x)
-
-            calls = []
-            for b, site in g.calls():
-                nm = site.get("callee") or ""
-                args = [s.at(b, "t").operand(a) for a in site["args"]]
-                calls.append((b, nm, args))
-            for rb, rsite in reads:
-                tag = "%s@%s#%d" % ((rsite.get("callee") or "").rsplit("::", 1)[-1], g.item_name, rb)
-                checkers = set(b for b, nm, args in calls if (nm in rejecters or nm.rsplit("::", 1)[-1] == "is_nan") and any(has_float_use(a, tag) for a in args))
-                uses = [(b, nm) for b, nm, args in calls if nm not in rejecters and nm.rsplit("::", 1)[-1] not in ("is_nan", "is_infinite", "is_finite", "map_err", "branch", "from_residual", "insufficient_data")
-                        and b != rb and any(has_float_use(a, tag) for a in args)]
+            for rb, rsite, tags in reads:
+                tag = sorted(tags)[0]
+                checkers = set(b for b, nm, args in calls if (nm in rejecters or nm.rsplit("::", 1)[-1] == "is_nan") and any(has_float_use(a, tags) for a in args))
+                uses = uses_of(calls, rb, tags)
                 if not uses:
                     continue
                 n_reads += 1
